@@ -188,7 +188,9 @@ CLAIMS = {
               "kind, and loom-raised failures (deadlock, race, leak, branch limit) with guards, Arc handles, tracked and "
               "raw allocations and block_on frames alive in the failing thread; the process must survive, the verdict "
               "class must be one the reference semantics has, later programs in the same process must match the twin. "
-              "Three abort defects found this way were repaired (F8, F12, F13: fix commits c00b711, 8c1ee7c, 6d9d832); "
+              "Four abort defects found this way were repaired (F8, F12, F13, F28: fix commits c00b711, 8c1ee7c, 6d9d832, 17a6006; "
+              "F28 = lazy statics / thread-locals with loom-using destructors dropped outside the execution); the branch "
+              "limit must be raised at every limit below a program's need; "
               "F11 (closure of a never-started thread dropped outside the model) is not reachable through the DSL."),
         ref="DESIGN.md §3 C06",
         technique="Lean 4 proof over the check loop + panic-injection correspondence runs with process-survival oracle"),
